@@ -4,6 +4,7 @@
 mod conc;
 mod hist;
 mod images;
+mod procw;
 mod util;
 
 fn main() {
@@ -18,6 +19,7 @@ fn main() {
         "hist" => hist::main(&args[2..]),
         "images" => images::main(&args[2..]),
         "conc" => conc::main(&args[2..]),
+        "proc" => procw::main(&args[2..]),
         other => {
             eprintln!("unknown subcommand {}", other);
             std::process::exit(2);
